@@ -375,12 +375,14 @@ pub fn build(prop: &str, draws: &[u16], tier: Tier) -> Case {
             4 => ("condvar", gen::sync_prog(&mut s, &SyncParams { condvar: true, max_threads: 3, max_ops: 7 + extra, ..sp() })),
             5 => ("channel", gen::sync_prog(&mut s, &SyncParams { channel: true, max_threads: 3, max_ops: 6 + extra, joins: true, ..sp() })),
             6 => ("park-notify-join", gen::sync_prog(&mut s, &SyncParams { park: true, notify: true, unpark_any: true, max_threads: 3, max_ops: 6 + extra, joins: true, child_joins: true, ..sp() })),
-            7 => ("mixed", gen::sync_prog(&mut s, &SyncParams { mutex: true, channel: true, atomics: true, ordered_locks: true, max_threads: 3, max_ops: 6 + extra, ..sp() })),
+            7 => ("mixed", gen::sync_prog(&mut s, &SyncParams { mutex: true, channel: true, atomics: true, conditionals: true, ordered_locks: true, max_threads: 3, max_ops: 7 + extra, ..sp() })),
             8 => ("mixed2", gen::sync_prog(&mut s, &SyncParams { rwlock: true, condvar: true, atomics: true, max_threads: 2, max_ops: 7 + extra, ..sp() })),
             _ => ("try-ops", gen::sync_prog(&mut s, &SyncParams { mutex: true, try_lock: true, rwlock: true, try_rw: true, channel: true, try_recv: true, max_threads: 2, max_ops: 6 + extra, ..sp() })),
         },
-        "C05" => match s.pick(8) {
-            7 => ("yield", gen::sync_prog(&mut s, &SyncParams { park: true, mutex: true, channel: true, yields: true, ordered_locks: true, max_threads: 2, max_ops: 6 + extra, joins: true, ..sp() })),
+        "C05" => match s.pick(10) {
+            7 => ("yield", gen::sync_prog(&mut s, &SyncParams { park: true, mutex: true, channel: true, yields: true, ordered_locks: true, max_threads: 2, max_ops: 6 + extra, joins: true, joins_inside: true, ..sp() })),
+            8 => ("yield-locks", gen::sync_prog(&mut s, &SyncParams { mutex: true, rwlock: true, yields: true, conditionals: true, ordered_locks: true, max_threads: 2, max_ops: 8 + extra, joins: true, joins_inside: true, ..sp() })),
+            9 => ("join-inside", gen::sync_prog(&mut s, &SyncParams { mutex: true, rwlock: true, condvar: true, conditionals: true, ordered_locks: true, max_threads: 3, max_ops: 7 + extra, joins: true, joins_inside: true, ..sp() })),
             6 => ("unpark-any", gen::sync_prog(&mut s, &SyncParams { park: true, mutex: true, unpark_any: true, ordered_locks: true, max_threads: 3, max_ops: 6 + extra, joins: true, ..sp() })),
             0 => ("lock-order", gen::sync_prog(&mut s, &SyncParams { mutex: true, ordered_locks: false, max_threads: 3, max_ops: 7 + extra, ..sp() })),
             1 => ("lock-order-ok", gen::sync_prog(&mut s, &SyncParams { mutex: true, rwlock: true, ordered_locks: true, max_threads: 3, max_ops: 7 + extra, ..sp() })),
@@ -401,7 +403,8 @@ pub fn build(prop: &str, draws: &[u16], tier: Tier) -> Case {
         "C08" => match s.pick(11) {
             7 => ("yield", gen::sync_prog(&mut s, &SyncParams { park: true, condvar: true, notify: true, yields: true, max_threads: 2, max_ops: 6 + extra, joins: true, ..sp() })),
             6 => ("unpark-any", gen::sync_prog(&mut s, &SyncParams { park: true, condvar: true, unpark_any: true, max_threads: 3, max_ops: 6 + extra, joins: true, ..sp() })),
-            0 | 1 => ("condvar", gen::sync_prog(&mut s, &SyncParams { condvar: true, cells: true, max_threads: 3, max_ops: 7 + extra, ..sp() })),
+            0 => ("condvar", gen::sync_prog(&mut s, &SyncParams { condvar: true, cells: true, max_threads: 3, max_ops: 7 + extra, ..sp() })),
+            1 => ("condvar+cond", gen::sync_prog(&mut s, &SyncParams { condvar: true, conditionals: true, max_threads: 3, max_ops: 8 + extra, joins: true, ..sp() })),
             2 => ("notify", gen::sync_prog(&mut s, &SyncParams { notify: true, cells: true, max_threads: 2, max_ops: 6 + extra, joins: true, ..sp() })),
             3 => ("park", gen::sync_prog(&mut s, &SyncParams { park: true, cells: true, unpark_any: true, max_threads: 3, max_ops: 6 + extra, joins: true, ..sp() })),
             4 => ("join", gen::sync_prog(&mut s, &SyncParams { cells: true, max_threads: 3, max_ops: 5 + extra, joins: true, child_joins: true, late_spawn: true, ..sp() })),
@@ -410,7 +413,8 @@ pub fn build(prop: &str, draws: &[u16], tier: Tier) -> Case {
             _ => ("wait-shapes", gen::wait_shape(&mut s)),
         },
         "C09" => match s.pick(5) {
-            0 | 1 => ("channel", gen::sync_prog(&mut s, &SyncParams { channel: true, max_threads: 3, max_ops: 7 + extra, joins: true, ..sp() })),
+            0 => ("channel", gen::sync_prog(&mut s, &SyncParams { channel: true, max_threads: 3, max_ops: 7 + extra, joins: true, ..sp() })),
+            1 => ("channel+cond", gen::sync_prog(&mut s, &SyncParams { channel: true, conditionals: true, max_threads: 3, max_ops: 8 + extra, joins: true, ..sp() })),
             2 => ("channel+cells", gen::chan_handover(&mut s)),
             4 => ("channel+probes", gen::sync_prog(&mut s, &SyncParams { channel: true, probes: true, max_threads: 3, max_ops: 8 + extra, joins: true, ..sp() })),
             _ => ("try_recv", gen::sync_prog(&mut s, &SyncParams { channel: true, try_recv: true, max_threads: 2, max_ops: 6 + extra, joins: true, ..sp() })),
